@@ -120,6 +120,7 @@ def checker_factory(modname, fopts_list):
                     fa = I.materialise(fa)
                 va = I.call(vf, [fa], dict(opts), {}, vf.module)
                 return (fa, fb, va, expected_value(I, modname, v))
+            u0 = getattr(sw, 'unknowns', 0)
             paths, status = sw.closure(p, run)
             oid = 'len=%s%s' % (n, (' ' + repr(fopts)) if fopts else '')
             if status != 'ok':
@@ -155,7 +156,7 @@ def checker_factory(modname, fopts_list):
                 desc = native_violation(modname, x, fopts, opts, today)
                 sw.finding('format changes the number', what.split(' (')[0], input=x, opts=opts, fopts=fopts, today=today,
                            approx=ctx.approx or bool(getattr(ctx, 'soft', None)), real=desc, reproduced=desc is not None)
-            sw.obligations.append((oid, 'proved' if ok else 'refuted', '%d closure paths' % len(paths)))
+            sw.obligations.append((oid, ('undecided' if getattr(sw, 'unknowns', 0) > u0 else 'proved') if ok else 'refuted', '%d closure paths' % len(paths)))
             if len(sw.samples) < 1 and paths:
                 sw.samples.append(dict(n=n, closure_paths=len(paths), format_opts=fopts))
     return checker
@@ -179,7 +180,7 @@ def bounded_native(rep, mods, tier):
     n = 0
     for m in mods:
         for fopts in FORMAT_OPTS.get(m, [dict()]):
-            for x in corpus.valid_numbers(m, 15 if tier == 'quick' else 40):
+            for x in corpus.valid_numbers(m, 15 if tier == 'quick' else 40) + corpus.synth_valid(m, 40 if tier == 'quick' else 400, int(os.environ.get('VERIF_SEED', '0') or 0)):
                 n += 1
                 try:
                     d = native_violation(m, x, fopts)
@@ -243,6 +244,8 @@ def check(prop, tier, args):
             ln = key.split('len=')[1].split(' ')[0]
             if st == 'proved' and ln not in und:
                 rep.add(key, 'proved', detail='format(x)==format(v), validate(format(x))==v on every accepting path of this length')
+            elif st == 'undecided':
+                rep.add(key, 'undecided', detail='solver unknown on a refutation candidate')
             elif st != 'proved':
                 pass        # reported through the finding
             else:
